@@ -313,7 +313,9 @@ AvroWhat(ev) ==
   IF ev.wout # "ok" THEN "avro writer " \o ev.wout
   \* a type the reader returns as another Arrow type is not "supported by both sides": only the fragment list
   \* (harness/p/c17/src/avro.rs fragment_types) is required to come back with its own type
-  ELSE IF ~ev.in_fragment /\ ev.outcome = "ok" /\ ev.nrows > 0 /\ ev.framing # "binary" /\ ev.schema_out # ev.schema_in THEN ""
+  \* (run-end / dictionary encoded columns come back as their value type: row tokens denote values, still judged)
+  ELSE IF ~ev.in_fragment /\ ev.outcome = "ok" /\ ev.nrows > 0 /\ ev.framing # "binary"
+          /\ ev.schema_out # ev.schema_in /\ ev.schema_out # ev.schema_in_plain THEN ""
   ELSE IF ~(ev.outcome = "ok" /\ ev.rows_out = ev.rows_in) THEN "avro round trip"
   ELSE IF ~ev.stream_is_concat THEN "avro stream # messages"
   ELSE IF ev.in_fragment /\ ev.nrows > 0 /\ ev.framing # "binary" /\ ev.schema_out # ev.schema_in THEN "avro schema"
@@ -407,6 +409,12 @@ KfJsonIntF64(ev) == JsonTextWhatM(ev, TRUE) = ""
 (* written correctly.  Identified by the schema shape (driver flag ree_nested).                                  *)
 KfAvroReeNested(ev) == ev.wout = "ok" /\ ev.ree_nested
 
+(* C17-avro-sliced-ree-offset-ignored: the Avro writer (Writer and Encoder, every framing) ignores the offset of   *)
+(* a SLICED RunEndEncoded column: every row of batch.slice(k, n) is written with the value of the run that holds  *)
+(* row 0 (..) of the unsliced array, silently.  Identified by: the batch was written in slices and has a run-end  *)
+(* encoded column (driver flags).                                                                                  *)
+KfAvroReeSliced(ev) == ev.wout = "ok" /\ ev.sliced /\ ev.has_ree
+
 (* C17-json-dict-null-value-written: the JSON writer's DictionaryEncoder only knows the KEY validity; a row     *)
 (* whose (valid) key selects a null dictionary VALUE is written as that slot's physical content ("" / 0) instead *)
 (* of null.  Identified by: a dictionary with a null among its values somewhere in the batch (driver flag), the   *)
@@ -421,6 +429,8 @@ KF(ev, what) ==
   ELSE IF ev.op = "avro" /\ what = "avro schema not Avro" /\ HasNullNull(ev.schema) THEN "C17-avro-null-column-union"
   ELSE IF ev.op = "avro" /\ what \in {"avro round trip", "avro Decode(block)", "avro Encode(rows)", "avro Encode(row)"} /\ KfAvroReeNested(ev)
   THEN "C17-avro-nested-ree-double-branch"
+  ELSE IF ev.op = "avro" /\ what \in {"avro round trip", "avro Decode(block)", "avro Encode(rows)", "avro Encode(row)"} /\ KfAvroReeSliced(ev)
+  THEN "C17-avro-sliced-ree-offset-ignored"
   ELSE IF ev.op = "csv_rt" /\ what \in {"csv text # Join", "csv Split(text)", "csv utf8 read", "csv round trip"} /\ KfCsvEscape(ev)
   THEN "C17-csv-escape-char-not-escaped"
   ELSE IF ev.op = "json_text" /\ what = "json reader rejects RFC 8259" /\ KfJsonNumberAtEof(ev) THEN "C17-json-number-at-eof"
